@@ -263,6 +263,34 @@ def json_vs_yaml(jt):
     return None
 
 
+def draft4_pairs():
+    """every combination of the two draft-4 boolean flags (absent / false / true) on integer and number members with both
+    bounds, against the draft-6 way of writing the same bounds"""
+    for t in ("integer", "number"):
+        for fmin in (None, False, True):
+            for fmax in (None, False, True):
+                d4 = {"type": t, "minimum": 5, "maximum": 10}
+                d6 = {"type": t}
+                if fmin is not None:
+                    d4["exclusiveMinimum"] = fmin
+                if fmax is not None:
+                    d4["exclusiveMaximum"] = fmax
+                d6["exclusiveMinimum" if fmin else "minimum"] = 5
+                d6["exclusiveMaximum" if fmax else "maximum"] = 10
+                wrap = lambda m: {"title": "Root", "type": "object", "properties": {"m": m, "l": {"type": "array", "items": m}}, "required": ["m"]}
+                yield (t, fmin, fmax), wrap(d4), wrap(d6)
+
+
+def compare_docs(a, b, opts, kind=V2):
+    ta, ea = run(json.dumps(a), "jsonschema", opts, kind)
+    tb, eb = run(json.dumps(b), "jsonschema", opts, kind)
+    if (ta is None) != (tb is None):
+        return f"only one of the two equivalent documents generates ({ea or eb})"
+    if ta is not None and classes_of(ta) != classes_of(tb):
+        return "the two equivalent documents give different classes"
+    return None
+
+
 def in_known_class(defs, root, opts):
     return False
 
@@ -299,6 +327,16 @@ def falsify(ctx):
         why = json_vs_yaml(jt)
         if why:
             report("json-vs-yaml:" + sv, f"string value {sv!r}: {why}", {"json_text": jt})
+    # the draft-4 flags in every combination vs the numeric form
+    for (t, fmin, fmax), d4, d6 in draft4_pairs():
+        for opts in ({}, {"field_constraints": True}):
+            ctx.count("eval_e2e", 2)
+            ctx.bucket("family", "draft4-flags")
+            ctx.nontrivial(f"draft4:{t}:{fmin}:{fmax}:{sorted(opts)}")
+            why = compare_docs(d4, d6, opts)
+            if why:
+                report(f"draft4:{t}:{fmin}:{fmax}:{sorted(opts)}", f"{t} member with exclusiveMinimum={fmin} exclusiveMaximum={fmax} (draft 4) vs the numeric form, {opts}: {why}",
+                       {"pair": [d4, d6], "opts": opts})
     # a named schema and an inline member whose derived class name is the same, in every declaration order, with and without
     # an earlier reference to the named one: the numbering of the two classes must not depend on the container
     import itertools
@@ -348,6 +386,8 @@ def falsify(ctx):
 
 
 def _replay(r):
+    if "pair" in r:
+        return compare_docs(r["pair"][0], r["pair"][1], r["opts"])
     if "openapi" in r:
         return compare_twice(r["openapi"], r["opts"])
     if "json_text" in r:
@@ -361,7 +401,7 @@ def replay_finding(ctx, f):
 
 def replay(ctx, payload):
     r = payload.get("replay", payload)
-    if not any(k in r for k in ("openapi", "json_text", "defs")):
+    if not any(k in r for k in ("openapi", "json_text", "defs", "pair")):
         print(json.dumps(payload, indent=1)[:3000])
         return 0
     why = _replay(r)
